@@ -41,6 +41,7 @@ type dscenario struct {
 	nsxExtra    bool     // NSX: foreign (non-Netspoc) objects on the manager
 	procEnv     []string // production-stack runs: extra environment of the process
 	panDirtyBy  string   // PAN-OS: candidate configuration carries uncommitted changes of this admin
+	panRunning  string   // PAN-OS: running configuration if it differs from the candidate ("" = same)
 	prepNoop    bool     // IOS: the preparation commands change nothing (settings already there), so 'reload in' does not ask to save
 }
 
@@ -52,7 +53,8 @@ func (sc *dscenario) dn() string {
 }
 
 type drun struct {
-	hung                        int // HTTPS: replies stalled inside the body on which the client never gave up
+	panRunAfter                 string // PAN-OS: running configuration at the end
+	hung                        int    // HTTPS: replies stalled inside the body on which the client never gave up
 	exit                        int
 	stdout                      string
 	stderr                      string
@@ -147,6 +149,15 @@ func runDialogue(scr *core.Scratch, sc *dscenario, o runOpts) *drun {
 		}
 		web = &sim.HTTPS{Flavor: "panos", Hostname: host, Key: sc.secretKey(), User: "admin", Pass: sc.secretPass(),
 			Pan: pm, PanRun: pm.Clone(), HA: sc.ha, Dev: o.dev, DirtyBy: sc.panDirtyBy}
+		if sc.panRunning != "" {
+			// the running configuration is older than the candidate (an
+			// earlier run was cut off before its commit)
+			rm, err := panmodel.Load(sc.panRunning)
+			if err != nil {
+				panic(err)
+			}
+			web.PanRun = rm
+		}
 		r.before = pm.Devices.String()
 	case "NSX":
 		nm, err := nsxmodel.Load(sc.device)
@@ -253,6 +264,7 @@ func runDialogue(scr *core.Scratch, sc *dscenario, o runOpts) *drun {
 		r.hung = web.Hung
 		if web.Pan != nil {
 			r.after = web.Pan.Devices.String()
+			r.panRunAfter = web.PanRun.Devices.String()
 		} else {
 			r.after = web.Nsx.Print()
 			r.foreignAfter = fmt.Sprint(web.Extra, web.ExtraGroups, web.ExtraServices)
